@@ -3,3 +3,4 @@ pub mod codec;
 pub mod obs;
 pub mod yata;
 pub mod ext;
+pub mod seqapi;
